@@ -617,6 +617,29 @@ fn signal_name(signal: i32) -> &'static str {
     }
 }
 
+/// Verification hook: runs one streamed task (a real process) exactly as the launcher does, without a task directory.
+/// The returned sender must be kept alive as long as the task must not be stopped.
+#[cfg(feature = "verif")]
+pub async fn verif_run_streamed_task(
+    streamer_ref: StreamerRef,
+    program: ProgramDefinition,
+    task_id: TaskId,
+    instance_id: InstanceId,
+    stream_path: PathBuf,
+) -> tako::Result<TaskResult> {
+    let (_stop_sender, stop_receiver) = tokio::sync::oneshot::channel::<StopReason>();
+    create_task_future(
+        streamer_ref,
+        program,
+        task_id,
+        instance_id,
+        stop_receiver,
+        None,
+        Some(stream_path),
+    )
+    .await
+}
+
 /// Zero-worker mode measures pure overhead of HyperQueue.
 /// In this mode the task is not executed at all.
 #[cfg(zero_worker)]
